@@ -39,9 +39,12 @@ class AXIMaster(Agent):
     """ops: {"kind": "w"|"r", "addr", "len", "size", "burst", "id", "data": [beat data], "strb": [beat strb] | None,
     "gap": cycles before the address is presented, "wgaps": [gap before each W beat]}"""
 
-    def __init__(self, bus, ops, name="m", max_out=1, bready="", rready="", hazard_key=None):
+    def __init__(self, bus, ops, name="m", max_out=1, bready="", rready="", hazard_key=None, single_target=None, idle_garbage=None):
         self.bus, self.name = bus, name
+        self.garbage, self.gpos = idle_garbage, 0     # literal values driven on the address fields while no address is presented
         self.ops = ops
+        self.single_target = single_target     # callable addr -> slave index: never have requests outstanding to two slaves (per direction)
+        self.log = {"aw": [], "ar": []}        # (cycle, index of the write / read) of every accepted address
         self.writes = [o for o in ops if o["kind"] == "w"]
         self.reads_ = [o for o in ops if o["kind"] == "r"]
         self.max_out, self.bready, self.rready = max_out, bready, rready
@@ -84,6 +87,12 @@ class AXIMaster(Agent):
     def done(self):
         return self.b_n >= len(self.writes) and self.r_n >= len(self.reads_)
 
+    def _target_ok(self, op, outstanding):
+        if self.single_target is None:
+            return True
+        t = self.single_target(op["addr"])
+        return all(self.single_target(o["addr"]) == t for o in outstanding)
+
     def _ax(self, w, ch, op):
         w(ch.valid, 1)
         w(ch.addr, op["addr"])
@@ -106,6 +115,7 @@ class AXIMaster(Agent):
             self._held[ch] = cur if (cur is not None and not v[chan.ready]) else None
         if self.aw_on and v[b.aw.ready]:
             self.bench.event(self.name, "aw", t, self.writes[self.aw_i]["addr"], self.writes[self.aw_i]["len"])
+            self.log["aw"].append((t, self.aw_i))
             self.aw_on = False
             self.aw_i += 1
             self.aw_acc += 1
@@ -127,6 +137,7 @@ class AXIMaster(Agent):
             self.stall += 1
         if self.ar_on and v[b.ar.ready]:
             self.bench.event(self.name, "ar", t, self.reads_[self.ar_i]["addr"], self.reads_[self.ar_i]["len"])
+            self.log["ar"].append((t, self.ar_i))
             self.ar_on = False
             self.ar_i += 1
             self.ar_wait = self.reads_[self.ar_i].get("gap", 0) if self.ar_i < len(self.reads_) else 0
@@ -150,12 +161,15 @@ class AXIMaster(Agent):
             if self.aw_i < len(self.writes):
                 if self.aw_wait > 0:
                     self.aw_wait -= 1
-                elif (self.aw_i - self.b_n) < self.max_out and \
+                elif (self.aw_i - self.b_n) < self.max_out and self._target_ok(self.writes[self.aw_i], self.writes[self.b_n:self.aw_i]) and \
                         (self.w_after_r is None or all(j < self.r_n for j in self.w_after_r[self.aw_i])):
                     self._ax(w, b.aw, self.writes[self.aw_i])
                     self.aw_on = True
             if not self.aw_on and v[b.aw.valid]:
                 w(b.aw.valid, 0)
+            if not self.aw_on and self.garbage:
+                w(b.aw.addr, self.garbage[self.gpos % len(self.garbage)] & 0xffffffff)
+                self.gpos += 1
         if not self.w_on:
             presented = self.aw_acc + (1 if self.aw_on else 0)
             if self.w_i < len(self.writes) and self.w_i < presented:
@@ -175,12 +189,15 @@ class AXIMaster(Agent):
             if self.ar_i < len(self.reads_):
                 if self.ar_wait > 0:
                     self.ar_wait -= 1
-                elif (self.ar_i - self.r_n) < self.max_out and \
+                elif (self.ar_i - self.r_n) < self.max_out and self._target_ok(self.reads_[self.ar_i], self.reads_[self.r_n:self.ar_i]) and \
                         (self.r_after_w is None or all(j < self.b_n for j in self.r_after_w[self.ar_i])):
                     self._ax(w, b.ar, self.reads_[self.ar_i])
                     self.ar_on = True
             if not self.ar_on and v[b.ar.valid]:
                 w(b.ar.valid, 0)
+            if not self.ar_on and self.garbage:
+                w(b.ar.addr, self.garbage[self.gpos % len(self.garbage)] & 0xffffffff)
+                self.gpos += 1
         br = 1 if t >= len(self.bready) else int(self.bready[t] == "1")
         rr = 1 if t >= len(self.rready) else int(self.rready[t] == "1")
         if br != v[b.b.ready]:
@@ -214,7 +231,7 @@ class AXISlave(Agent):
         self.rd_q = []        # [ready_at, beats [(data, err)], id, pos]
         self.n_wr = self.n_rd = 0
         self.b_on = self.r_on = False
-        self.log = {"aw": [], "ar": [], "w": [], "wbeats": []}
+        self.log = {"aw": [], "ar": [], "w": [], "wbeats": [], "b": [], "r": []}    # b: (cycle, id); r: (cycle, id, last)
         self.proto = []
         self._held = {"aw": None, "w": None, "ar": None}
         self.errors = []      # slave-observed burst structure problems (wrong W beat count / last)
@@ -260,10 +277,12 @@ class AXISlave(Agent):
             self.n_rd += 1
         if self.b_on and v[b.b.ready]:
             self.b_on = False
+            self.log["b"].append((t, self.wr_done[0][1]))
             self.wr_done.pop(0)
         if self.r_on and v[b.r.ready]:
             self.r_on = False
             q = self.rd_q[0]
+            self.log["r"].append((t, q[2], int(q[3] == len(q[1]) - 1)))
             q[3] += 1
             if q[3] >= len(q[1]):
                 self.rd_q.pop(0)
